@@ -160,7 +160,7 @@ def _pyeq(a, b):
     return type(a) is type(b) and a == b
 
 
-OBJ_DEFAULTS = {'PObj': {'b': 'x'}, 'PSub': {}, 'PDef': {'c': 1, 'd': None}, 'PSet': {}}
+OBJ_DEFAULTS = {'PObj': {'b': 'x'}, 'PSub': {}, 'PDef': {'c': 1, 'd': None}, 'PSet': {}, 'POpt': {}}
 OBJ_IGNORED = {'PSub': ('b',)}
 
 
